@@ -294,7 +294,7 @@ fn check_in_surplus(input: &(ARecord, Vec<u8>, Bytes), case: &mut Case) -> Resul
     p.answers.push(rec.clone());
     p.answers.push(ARecord { name: AName::from_strs(&["t", "example"]), class: 1, cache_flush: false, ttl: 1, rdata: ARData::Typed { code: 1, fields: vec![Val::U32(0x7f000001)] } });
     let mut opts = if choices.is_empty() { EncOpts::plain() } else { EncOpts::foreign(choices.clone()) };
-    opts.tweaks.insert((1, 0), Tweak { surplus: surplus.clone(), shrink: 0 });
+    opts.tweaks.insert((0, 0), Tweak { surplus: surplus.clone(), shrink: 0 });
     let wire = encode_message(&p, &opts);
     case.class(format!("type:{}", code));
     let Ok(pk) = parse(&wire)? else {
@@ -313,7 +313,19 @@ fn check_in_surplus(input: &(ARecord, Vec<u8>, Bytes), case: &mut Case) -> Resul
 
 fn surplus_strategy(_t: Tier) -> BoxedStrategy<(ARecord, Vec<u8>, Bytes)> {
     // types with at least one embedded name
-    let with_names: Vec<u16> = crate::gen::record_codes().into_iter().filter(|c| type_info(*c).map(|i| i.fields.iter().any(|f| matches!(f.kind, Kind::Name(_) | Kind::Gateway))).unwrap_or(false)).collect();
+    // ... and a content of definite length (a trailing opaque field would simply absorb the surplus)
+    let with_names: Vec<u16> = crate::gen::record_codes()
+        .into_iter()
+        .filter(|c| {
+            type_info(*c)
+                .map(|i| {
+                    i.fields.iter().any(|f| matches!(f.kind, Kind::Name(_)))
+                        && !i.fields.iter().any(|f| matches!(f.kind, Kind::Gateway))
+                        && matches!(i.fields.last().map(|f| f.kind), Some(Kind::U8 | Kind::U16 | Kind::U24 | Kind::U32 | Kind::U48 | Kind::Fixed(_) | Kind::Name(_) | Kind::CharStr))
+                })
+                .unwrap_or(false)
+        })
+        .collect();
     (
         proptest::sample::select(with_names).prop_flat_map(|c| crate::gen::arecord_with(crate::gen::typed(c))),
         vec(any::<u8>(), 0..6),
